@@ -16,12 +16,19 @@ struct Seen {
     pending: usize,
 }
 
+thread_local! {
+    /// scalars that left the generator in the most recent invocation (kept also when `invoke` returns Err)
+    static LAST_ACCEPTED: std::cell::RefCell<Vec<BigUint>> = std::cell::RefCell::new(vec![]);
+}
+
 fn seen2() -> Seen {
     let s = sm2x::rng_seen();
+    LAST_ACCEPTED.with(|l| *l.borrow_mut() = s.accepted.clone());
     Seen { candidates: s.candidates, injected: s.injected, accepted: s.accepted, pending: s.pending }
 }
 fn seen9() -> Seen {
     let s = sm9x::rng_seen();
+    LAST_ACCEPTED.with(|l| *l.borrow_mut() = s.accepted.clone());
     Seen { candidates: s.candidates, injected: s.injected, accepted: s.accepted, pending: s.pending }
 }
 
@@ -268,7 +275,7 @@ pub fn run(ctx: &mut Ctx) {
     for (n, ok) in r9::selftest(false) {
         ctx.selftest(&n, ok);
     }
-    ctx.require(&["free_invocation", "used_equals_drawn_checked", "injection_out_of_range", "injection_rejected_then_valid_used", "threads", "exchange_object_reuse_step", "inject:0", "inject:order", "inject:order+1", "inject:2^256-1", "inject:sm2_[n,p-2]"]);
+    ctx.require(&["free_invocation", "used_equals_drawn_checked", "injection_out_of_range", "injection_rejected_then_valid_used", "injection_long_rejection_run", "threads", "exchange_object_reuse_step", "inject:0", "inject:order", "inject:order+1", "inject:2^256-1", "inject:sm2_[n,p-2]"]);
     for s in SITES.iter() {
         ctx.required.push(format!("site:{}", s.name));
     }
@@ -475,6 +482,41 @@ pub fn run(ctx: &mut Ctx) {
                         }
                     }
                     Err(e) => ctx.violation(&format!("{}:inject:{}", site.name, e), json!({"site": site.name, "candidate": hex::encode(r2::b32(bv))})),
+                }
+            }
+        }
+        // a LONG run of consecutive out-of-range candidates (17, 33 or 48 of them) and then a valid one: a sampler that
+        // gives up after a bounded number of rejections must not hand out the last rejected candidate. An error
+        // return or a refusal is within the property; only a scalar outside the range leaving the generator, or an
+        // output that does not correspond to the scalar drawn, is a violation.
+        for (li, len) in [17usize, 33, 48].iter().enumerate() {
+            idx += 1;
+            if !ctx.mine(idx) {
+                continue;
+            }
+            let mut q: Vec<[u8; 32]> = (0..*len).map(|j| r2::b32(&bad[(j + li) % bad.len()].1)).collect();
+            let good = if site.sm9 { sm9x::rand_scalar(&mut p, &(&ord - 1u32)) } else { sm2x::rand_scalar(&mut p, &(&ord - 1u32)) };
+            q.push(r2::b32(&good));
+            ctx.eval();
+            ctx.class("injection_long_rejection_run");
+            ctx.distinct("inject_long", &[site.name.as_bytes(), &[*len as u8]]);
+            LAST_ACCEPTED.with(|l| l.borrow_mut().clear());
+            let w = json!({"site": site.name, "run_length": len, "queued_valid": hex::encode(r2::b32(&good))});
+            match invoke(site, &fx, &mut p, true, &q) {
+                Ok((seen, used)) => {
+                    record(ctx, site, &seen, &used, "inject-long-run");
+                    if seen.accepted.last() != Some(&good) || seen.pending != 0 {
+                        ctx.violation(&format!("{}:long-rejection-run:valid-candidate-behind-the-run-not-used", site.name), w);
+                    }
+                }
+                Err(e) => {
+                    ctx.class(&format!("injection_long_rejection_run:gave-up:{}", e));
+                    let acc = LAST_ACCEPTED.with(|l| l.borrow().clone());
+                    for a in acc {
+                        if a.is_zero() || a >= ord {
+                            ctx.violation(&format!("{}:accepted-scalar-out-of-range", site.name), json!({"site": site.name, "run_length": len, "scalar": if a.bits() <= 256 { hex::encode(r2::b32(&a)) } else { "overflow".into() }, "mode": "inject-long-run", "operation_outcome": e}));
+                        }
+                    }
                 }
             }
         }
